@@ -415,6 +415,35 @@ mut("C11", "newset-first-collision-wins", ("types/set.go", '''			} else if vv.Eq
 			}
 			hash++'''))
 
+# ---- C12
+mut("C12", "decimal-string-trims-all-zeros", ("types/decimal.go", "trimmed < 3; right, trimmed", "trimmed < 4; right, trimmed"))
+mut("C12", "duration-overflow-check-removed", ("types/duration.go", '''			if total > limit-product {
+				return Duration{}, fmt.Errorf("%w: overflow", errDuration)
+			}''', ''''''))
+mut("C12", "valid-day-unchecked", ("types/datetime.go", '''	if err = checkValidDay(year, month, day); err != nil {
+		return Datetime{}, err
+	}''', ''''''))
+mut("C12", "offset-minutes-99", ("types/datetime.go", '''parseUint(s, 2, 59, "offset minutes")''', '''parseUint(s, 2, 99, "offset minutes")'''))
+mut("C12", "newdecimal-wraps", ("types/decimal.go", '''		if i > math.MaxInt64/scale {''', '''		if i > math.MaxInt64/scale && scale < 100000 {'''))
+mut("C12", "decimal-negative-fraction-sign", ("types/decimal.go", '''	if s[0] == '-' {
+		tenThousandths = -tenThousandths
+	}''', '''	if intPart < 0 {
+		tenThousandths = -tenThousandths
+	}'''))
+mut("C12", "datetime-year-10000-four-digit-format", ("types/datetime.go", '''	if year >= 0 && year <= 9999 {''', '''	if year >= 0 && year <= 10000 {'''))
+mut("C12", "duration-units-any-order", ("types/duration.go", '''			if !unitOK {
+				return Duration{}, fmt.Errorf("%w: unexpected unit '%s'", errDuration, unit)
+			}''', '''			if !unitOK {
+				unitI = 0
+			}'''))
+mut("C12", "ip-prefix-string-drops-32", ("types/ipaddr.go", '''	if i.Prefix().Bits() == i.Addr().BitLen() {
+		return i.Addr().String()
+	}
+	return i.Prefix().String()''', '''	if i.Prefix().Bits() >= 32 {
+		return i.Addr().String()
+	}
+	return i.Prefix().String()'''))
+
 # ---- C20
 mut("C20", "unmarshal-merges", ("policy_set.go", """	*p = PolicySet{
 		policies: make(PolicyMap, len(jsonPolicySet.StaticPolicies)),
